@@ -282,7 +282,7 @@ class ActionLink(Action):
             ActionLink.apply_parsing_links(subparser, cfg[subcommand])  # type: ignore[arg-type]
         if not hasattr(parser, "_links_group"):
             return
-        for action in get_link_actions(parser, "parse"):
+        for action in get_parsing_links_in_dependency_order(parser):
             from ._typehints import ActionTypeHint
 
             args = []
@@ -484,6 +484,26 @@ def get_link_actions(parser: "ArgumentParser", apply_on: str, skip=set()) -> Lis
     if not hasattr(parser, "_links_group"):
         return []
     return [a for a in parser._links_group._group_actions if a.apply_on == apply_on and a not in skip]
+
+
+def get_parsing_links_in_dependency_order(parser: "ArgumentParser") -> List[ActionLink]:
+    """Parsing links, such that a link whose target is nested in a source of another one is applied first."""
+
+    def nested(key1: str, key2: str) -> bool:
+        return key1.startswith(key2 + ".") or key2.startswith(key1 + ".")
+
+    pending = get_link_actions(parser, "parse")
+    ordered: List[ActionLink] = []
+    while pending:
+        for action in pending:
+            others = [a for a in pending if a is not action]
+            if not any(nested(o.target[0], source_key) for o in others for source_key, _ in action.source):
+                break
+        else:
+            action = pending[0]  # circular nesting, keep order in which links were added
+        ordered.append(action)
+        pending.remove(action)
+    return ordered
 
 
 def is_nested_instantiation_link(action: ActionLink) -> bool:
